@@ -66,3 +66,44 @@ def gen(ctx, A, n, **kw):
 
 def one_per_algorithm(rng, A, **kw):
     return [problems.gen_problem(rng, A, alg_name=nm, **kw) for nm in problems.ALL if nm in A.idx]
+
+
+# ----------------------------------------------------------------------------------------
+# pair runs
+
+def flip(h):
+    """hex of the negated double"""
+    return "%016x" % (int(h, 16) ^ 0x8000000000000000)
+
+
+def flip_list(s):
+    if s in ("", "_", "-", None):
+        return s
+    return ",".join(flip(t) for t in s.split(","))
+
+
+def obj_trace(run):
+    return [(c.x, c.g, c.val, c.grad) for c in run.calls if c.kind == "f"]
+
+
+def result_of(run):
+    R = run.R or {}
+    return (R.get("ret"), R.get("x"), R.get("optf"), R.get("numevals"))
+
+
+def compare_pairs(ctx, runs_a, runs_b, relate, name, sigbase):
+    """relate(run_a, run_b) -> None or text of the first difference"""
+    n = bad = 0
+    for a, b in zip(runs_a, runs_b):
+        n += 1
+        if a.status != "ok" or b.status != "ok":
+            continue
+        d = relate(a, b)
+        if d:
+            bad += 1
+            from .swrap import kvs
+            alg = int(kvs(a.spec).get("alg", -1))
+            sig = dict(sigbase)
+            sig["alg"] = ctx.algnames[alg] if 0 <= alg < len(ctx.algnames) else str(alg)
+            ctx.violation(sig, "%s: %s" % (sig["alg"], d), {"stream": "run-pair", "spec_a": a.spec, "spec_b": b.spec})
+    ctx.corr[name] = {"pairs": n, "differing": bad}
